@@ -159,25 +159,26 @@ theorem C19_unknown_field_roundtrip (ar : Arith) (o : Opts) (ds : List Desc) (ms
 /-- **A developer field survives the round trip through its cell**: the writer names it after the most recent
 description of its (developer data index, field number) — the parts of a name joined with `|` —; the reader finds the
 most recent description carrying that name (the same one when names are unique, the property's condition), takes its
-base type, and parses the value back. `_partial`: the hypotheses `hsc`, `hof` (the description carries no scale and no
-offset) exclude the class of the open finding KF-C19-6 — the reader un-scales a float cell with the description's scale
-and offset although the writer never applied them (witness below). -/
-theorem C19_dev_field_roundtrip_partial (ar : Arith) (o : Opts) (ds : List Desc) (mesgNum : Nat) (dv : DevField) (d : Desc)
+base type, and parses the value back — whatever scale and offset the description carries: the writer prints developer
+field values as they are and the reader, since the fix of KF-C19-6 (it used to un-scale a float cell with the
+description's scale and offset), does not discard them. -/
+theorem C19_dev_field_roundtrip (ar : Arith) (o : Opts) (ds : List Desc) (mesgNum : Nat) (dv : DevField) (d : Desc)
     (hfind : findDesc ds dv.devIdx dv.num = some d) (hname : ds.reverse.find? (fun x => x.name == d.name) = some d)
     (hnative : lookupFieldNum mesgNum d.name = none) (hne : d.name.isEmpty = false)
-    (hunk : isPrefixOf' unknownTxt d.name = false) (hsc : d.scale = 255) (hof : d.offset = 127)
+    (hunk : isPrefixOf' unknownTxt d.name = false)
     (hv : valueOK d.bt false dv.value = true) (hdeg : ¬(d.units = degreesTxt ∧ d.bt = btSint32))
     (hshape : (elemsOf dv.value).2 = true → (elemsOf dv.value).1.length ≠ 1) :
     readCell ar ds mesgNum (writeDev o ds dv) = .ok (.dev ⟨dv.devIdx, dv.num, csvNorm dv.value⟩) :=
-  dev_field_rt ar o ds mesgNum dv d hfind hname hnative hne hunk hsc hof hv hdeg hshape
+  dev_field_rt ar o ds mesgNum dv d hfind hname hnative hne hunk hv hdeg hshape
 
-/-- KF-C19-6: a float32 developer field holding 0.5 whose description has scale 100: written as "0.5", read back as 50.0 -/
-theorem C19_dev_float_scale_witness :
+/-- the former witness of KF-C19-6 (fixed): a float32 developer field holding 0.5 whose description has scale 100 is
+written as "0.5" and read back as 0.5 (it used to come back as 50.0) -/
+theorem C19_dev_float_scale_fixed :
     let d : Desc := { devIdx := 0, num := 0, name := txt "ratio", units := [], bt := btFloat32, scale := 100, offset := 127 }
     let dv : DevField := { devIdx := 0, num := 0, value := .float32 0x3f000000 }
     valueOK d.bt false dv.value = true ∧
     (match readCell Arith.so [d] 20 (writeDev {} [d] dv) with
-     | .ok (.dev back) => back.value == .float32 0x42480000
+     | .ok (.dev back) => back.value == .float32 0x3f000000
      | _ => false) = true := by decide +kernel
 
 /-- **Sub-field substitution and its reversal.** (1) A field one of whose sub-fields applies is written under the
